@@ -35,14 +35,17 @@ MANIFEST_TEXT = ("Lean 4 theorems over an arbitrary field, for every size n and 
                  "run the loop headers, statement order, branch conditions (pivot comparison, singularity test, throwEarly "
                  "block), the arguments of the three luDecomposition calls (operand is a local copy, throwEarly literal) and "
                  "the scalar kernel of every update statement of luDecomposition, Elim, ElimPivot, ElimDet, the LU branches "
-                 "of solve/invert/determinant and DiagonalMatrix::solve/invert/determinant; 19 tie_* theorems state that the "
+                 "of solve/invert/determinant and DiagonalMatrix::solve/invert/determinant; 19 tie_* theorems (20 with round five's tie_checked_quantity) state that the "
                  "model functions are exactly these loop skeletons instantiated with the generated kernels (proved with "
                  "ring, so commuted factors / renamed variables / respelled compound assignments pass). New theorems about "
                  "histories and consistency: invert_sound (both modes, every n), A.invert();A.invert() restores A "
                  "(invert_invert, invert_invert_returns), solve = invert*b, the result of solve does not depend on the "
                  "pivoting mode, det(B)*det(A)=1, DiagonalMatrix::solve/invert/determinant agree with the dense calls on "
                  "diag(d). New cases: solve with x and b of different vector families (fmx/dmx/diagx) and the same object "
-                 "inverted twice (inv2).")
+                 "inverted twice (inv2). Round five: the translator normalises behaviour-preserving respellings of the "
+                 "translated functions before matching (see MANIFEST_NOTE), so ordinary maintenance edits no longer break a tie; "
+                 "the quantity tested by the DUNE_FMatrix_WITH_CHECKING regions of the closed forms is tied to the determinant "
+                 "(tie_checked_quantity) and that configuration is executed in a second translation unit (ck cases).")
 MANIFEST_NOTE = ("Trusted: Lean kernel (+propext/Classical.choice/Quot.sound), Mathlib's Matrix.det and real numbers, "
                  "tr_c02.py, the fidelity of the hand-written LU model (round four: every scalar kernel, loop header, "
                  "statement order and call flag of the LU path is regenerated from the source and tied to the model by the "
@@ -73,7 +76,14 @@ MANIFEST_NOTE = ("Trusted: Lean kernel (+propext/Classical.choice/Quot.sound), M
                  "DiagonalMatrix and unpivoted break-down on nonsingular A are outside the property and are not compared; "
                  "non-square operands and 0x0 DynamicMatrix (cols() asserts) are outside its domain; #ifdef "
                  "DUNE_FMatrix_WITH_CHECKING code is not compiled (with that macro the closed forms and DiagonalMatrix reject "
-                 "matrices below FMatrixPrecision's absolute limit by design).")
+                 "matrices below FMatrixPrecision's absolute limit by design); round five: the translator reads these regions "
+                 "inside the closed forms of solve (n<=3) and invert (n<=2), emits the tested quantity and "
+                 "tie_checked_quantity proves it is the determinant; and a second translation unit of the harness "
+                 "(cxx_c02_ck.cc) compiles the closed forms of solve / invert WITH the macro for std::complex<long double> "
+                 "(a scalar type used nowhere else in the binary, so the two configurations of the header-only code never "
+                 "meet) and runs them on well-conditioned operands with |det| between 2^-180 and 2^613: they must return "
+                 "(`ck` cases; the Lean driver answers ck-returns for every admissible line).  Not covered in that "
+                 "configuration: DiagonalMatrix, operands below the limit (rejected by design), SIMD.")
 TECHNIQUE = ('Lean 4 proof (L*W = P*A0 invariant of in-place LU with partial pivoting, any field, any n; top-level theorems '
              'about the size-dispatching member functions; entry-wise rounding-error invariant for the same loops over '
              'rounded reals; lockstep simulation of the scaled against the unscaled run for any scalar type) + translator '
@@ -83,11 +93,15 @@ TECHNIQUE = ('Lean 4 proof (L*W = P*A0 invariant of in-place LU with partial piv
              'double / long double / complex / LoopSIMD<double,4> at all magnitudes')
 TRANSLATORS = [tr_c02.translate]
 HARNESS = dict(
-    sources=["cxx_c02.cc"],
+    sources=["cxx_c02.cc", "cxx_c02_ck.cc"],
     repo_sources=["dune/common/exceptions.cc", "dune/common/stdstreams.cc"],
     flags=["-O0", "-g1"],
 )
-RULE = ("cases: field gf|f64|ld|c64|v64 (v64 = LoopSIMD<double,4>, four independent lanes) x op solve|invert|det|"
+RULE = ("round five: one case in fifty is `ck` = the closed forms of solve / invert (n = 1..3, FieldMatrix | DynamicMatrix) in a "
+        "second translation unit compiled WITH DUNE_FMatrix_WITH_CHECKING on std::complex<long double> operands A*2^k (small "
+        "integer A with exact nonzero determinant, -180 <= k*n <= 600: |det| from 2^-180 to 2^613, always far above the absolute "
+        "limit 1e-80): the call must return and pass the residual test; "
+        "cases: field gf|f64|ld|c64|v64 (v64 = LoopSIMD<double,4>, four independent lanes) x op solve|invert|det|"
         "FMatrixHelp::invertMatrix[_retTransposed]|inv2 (the same object inverted twice; gf, pivoting on/default) x FieldMatrix|"
         "DynamicMatrix|DiagonalMatrix x n=1..7 (DynamicMatrix also 8..10) x doPivoting true|false|argument omitted; "
         "one solve in six with x and b of the other vector family (fmx: FieldMatrix, x DynamicVector, b FieldVector; dmx: "
@@ -118,7 +132,7 @@ ASSUMPTIONS = [
     "scale theorems: hypotheses fl(c*x) = c*fl(x) for c, d, d/c (true for binary floating point and powers of two in the absence of overflow/underflow; assumed, not proved, for the machine types); the harness keeps every scaled case inside that regime by construction of the exponent ranges",
     "float matrices with a zero row, a zero column or (real types) two equal rows are treated as exactly singular: the elimination then meets an exact zero pivot whatever the rounding (x/x = 1 and x - 1*x = 0 exactly in IEEE arithmetic); for complex scalars equal rows are not used because the library's complex division does not guarantee z/z = 1",
     "LoopSIMD<double,4>: the Lean driver answers lane by lane with the scalar model; that the SIMD code is lane-wise the scalar algorithm is property C09 (theorems lu_lanewise, solve_lanewise, invert_lanewise there)",
-    "the runtime value of FMatrixPrecision<>::absolute_limit() must not influence the default build (the macro DUNE_FMatrix_WITH_CHECKING is not defined); the harness varies it, the model does not have it",
+    "the runtime value of FMatrixPrecision<>::absolute_limit() must not influence the default build (the macro DUNE_FMatrix_WITH_CHECKING is not defined); the harness varies it, the model does not have it; the checking regions inside the closed forms of solve / invert must have the shape `if (anyTrue(absreal(E) < absolute_limit())) DUNE_THROW(FMatrixError, ..)`, exactly one per block, and E must be the determinant (tie_checked_quantity); the harness executes them only in the `ck` cases (second translation unit with the macro defined, std::complex<long double> operands with a determinant far above the limit, n <= 3)",
 ]
 TRUSTED = ["g++/libstdc++, ASan/UBSan", "Mathlib v4.33 (Matrix.det, Equiv.Perm.sign, BlockTriangular)",
            "translator tr_c02.py", "harness/cxx_c02.cc (GF(p) class, generators, Laplace/residual oracles) + Driver/C02.lean parsing/printing"]
